@@ -192,6 +192,33 @@ def run(chk):
     base = dtm.datetime(1999, 12, 31, 23, 59, 59, tzinfo=dtm.timezone.utc)
     seq = [base.replace(microsecond=u) for u in US_BOUNDARY] + [base.replace(microsecond=0) + dtm.timedelta(seconds=1)]
     chk.bounded('native: monotone on adjacent instants', [(a, b, P, C) for a, b in zip(seq, seq[1:]) for P, C in PCS], mono, classify=repr, bound='adjacent boundary instants across a second/day/year boundary x 6 (P,C)')
+    # the property-level statement: whatever value kind reaches a TimestampProperty, the text written is the one its own (precision, constraint) requires
+    import stix2.properties as SP
+
+    def prop_cases():
+        base = dtm.datetime(2021, 7, 4, 23, 59, 59, tzinfo=dtm.timezone.utc)
+        for us in (0, 1, 999, 1000, 123456, 500000, 999999, 120000):
+            d = base.replace(microsecond=us)
+            for P, C in PCS:
+                yield (P, C, 'str', U.format_datetime(d))
+                yield (P, C, 'datetime', d)
+                yield (P, C, 'naive datetime', d.replace(tzinfo=None))
+                for P2, C2 in PCS:
+                    yield (P, C, f'STIXdatetime[{P2},{C2}]', U.STIXdatetime(d, precision=P2.lower(), precision_constraint=C2.lower()))
+
+    def check_prop(case):
+        P, C, kind, v = case
+        prop = SP.TimestampProperty(precision=P.lower(), precision_constraint=C.lower())
+        try: cleaned, _ = prop.clean(v)
+        except Exception as ex: return ('property#clean accepts every timestamp value kind', f'TimestampProperty({P},{C}).clean({kind} {v!r}) raised {type(ex).__name__}: {ex}', {})
+        text = U.format_datetime(cleaned)
+        us = text_to_us(v) if isinstance(v, str) else us_of(v)
+        unit = {('SECOND', 'EXACT'): M, ('MILLISECOND', 'EXACT'): 1000}.get((P, C), 1)
+        want = spec_text(us - us % unit, P, C)
+        if text != want:
+            return ('property#text is the one the property\'s precision requires', f'TimestampProperty({P},{C}) given {kind} {v!r} writes {text!r}, specification formatter {want!r}', {})
+    chk.bounded('native: TimestampProperty.clean over value kinds', list(prop_cases()), check_prop, classify=lambda c: (c[0], c[1], c[2]),
+                bound='6 property settings x {string, aware datetime, naive datetime, STIXdatetime of each of the 6 settings} x 8 microsecond values')
     if chk.tier == 'thorough':
         step = M // 64
         with mp.Pool(16) as pool:
